@@ -261,10 +261,32 @@ def report(repo, table):
             stats['outside_stream'] += 1
         rows.append({'entry': r['entry'], 'file': '%s:%d' % (r['file'], r['line']),
                      'ops': t.get('ops', []), 'theorem': t.get('theorem', ''), 'note': t.get('note', '')})
+    # the theorem names quoted by the table must exist (Props/C15.v, owners' Props/Cxx.v)
+    root = os.path.dirname(os.path.dirname(os.path.abspath(__file__)))
+    thm_names = set()
+    for f in os.listdir(os.path.join(root, 'coq', 'Props')):
+        if f.endswith('.v'):
+            txt = re.sub(r'\(\*.*?\*\)', '', open(os.path.join(root, 'coq', 'Props', f)).read(), flags=re.S)
+            thm_names.update(re.findall(r'^\s*(?:Theorem|Example)\s+([A-Za-z0-9_\']+)', txt, re.M))
+    kinds = {'c15_theorem': 0, 'c15_theorem_partial': 0, 'owner_theorem': 0, 'correspondence_and_judge_only': 0}
+    missing_thm = set()
+    for r in rows:
+        t = r['theorem']
+        if t.startswith('C15_'):
+            kinds['c15_theorem_partial' if t.endswith('_partial') else 'c15_theorem'] += 1
+            if t not in thm_names:
+                missing_thm.add(t)
+        elif t.startswith('owner: '):
+            kinds['owner_theorem'] += 1
+            if t[7:].strip() not in thm_names:
+                missing_thm.add(t[7:].strip())
+        else:
+            kinds['correspondence_and_judge_only'] += 1
+    stats['no_panic_evidence_per_entry'] = kinds
+    stats['theorems_named_but_missing'] = sorted(missing_thm)
     stale = sorted(set(by) - set(r['entry'] for r in found))
     stats['table_entries_not_in_source'] = stale
     stats['covered_by_property'] = dict(sorted(byprop.items()))
-    stats['with_no_panic_theorem'] = sum(1 for r in rows if r['theorem'] and not r['theorem'].startswith('none'))
     return {'summary': stats, 'unmapped': unmapped, 'entries': rows}
 
 
